@@ -24,7 +24,7 @@ from .values import *   # noqa: F401,F403
 
 
 class Frame:
-    __slots__ = ("locals", "globs", "func", "entry_g", "ret", "ret_g", "loops", "closure", "cls")
+    __slots__ = ("locals", "globs", "func", "entry_g", "ret", "ret_g", "loops", "closure", "cls", "globals_declared")
 
     def __init__(self, locals_, globs, func=None, entry_g=True, closure=None, cls=None):
         self.locals = locals_
@@ -36,6 +36,7 @@ class Frame:
         self.loops = []
         self.closure = closure
         self.cls = cls
+        self.globals_declared = None
 
 
 class Loop:
@@ -479,7 +480,10 @@ class Engine:
         pass
 
     def x_Global(self, st):
-        raise Unsupported("global statement")
+        fr = self.frame
+        if not hasattr(fr, "globals_declared") or fr.globals_declared is None:
+            fr.globals_declared = set()
+        fr.globals_declared.update(st.names)
 
     def x_Nonlocal(self, st):
         raise Unsupported("nonlocal statement")
@@ -683,6 +687,8 @@ class Engine:
     # names
     def load_name(self, name):
         fr = self.frame
+        if fr.globals_declared and name in fr.globals_declared and name in fr.globs:
+            return fr.globs[name]
         f = fr
         while f is not None:
             if name in f.locals:
@@ -714,6 +720,11 @@ class Engine:
 
     def store_name(self, name, v):
         fr = self.frame
+        if fr.globals_declared and name in fr.globals_declared:
+            # module state mutated at run time: keep it exact by refusing to predicate it
+            self.commit()
+            fr.globs[name] = v
+            return
         old = fr.locals.get(name, NOTSET)
         g = self.g
         if g is True:
@@ -813,8 +824,6 @@ class Engine:
         self.after_region(g0, esc0, dead)
 
     def x_While(self, st):
-        if st.orelse:
-            raise Unsupported("while-else")
         fr = self.frame
         lp = Loop()
         fr.loops.append(lp)
@@ -847,12 +856,16 @@ class Engine:
                     dead = True
         finally:
             fr.loops.pop()
+        if st.orelse:
+            ge = g_norm(g_and(g0, g_not(g_or(lp.brk, fr.ret_g)))) if (lp.brk is not False or fr.ret_g is not ret0) else g0
+            if ge is not False:
+                esc_e = self.esc()
+                _, d2 = self.run_guarded(ge, lambda: self.exec_block(st.orelse))
+                dead = dead or d2
         g = g0 if fr.ret_g is ret0 else g_norm(g_and(g0, g_not(fr.ret_g)))
         self.revive(g, dead)
 
     def x_For(self, st):
-        if st.orelse:
-            raise Unsupported("for-else")
         items = self.iterate(self.ev(st.iter))
         fr = self.frame
         lp = Loop()
@@ -882,6 +895,11 @@ class Engine:
                     dead = True
         finally:
             fr.loops.pop()
+        if st.orelse:
+            ge = g_norm(g_and(g0, g_not(g_or(lp.brk, fr.ret_g)))) if (lp.brk is not False or fr.ret_g is not ret0) else g0
+            if ge is not False:
+                _, d2 = self.run_guarded(ge, lambda: self.exec_block(st.orelse))
+                dead = dead or d2
         g = g0 if fr.ret_g is ret0 else g_norm(g_and(g0, g_not(fr.ret_g)))
         self.revive(g, dead)
 
@@ -1536,11 +1554,33 @@ class Engine:
             if isinstance(o, (Native, Cls)) or o is None:
                 return o
             self.throw("TypeError", f"'{type(o).__name__}' object is not subscriptable")
+        if isinstance(idx, SymInt) and kind in ("bytes", "list", "tuple") and 0 < len(seq) <= 4096 \
+                and all(isinstance(x, int) and not isinstance(x, bool) for x in seq):
+            e0 = z3.simplify(idx.e)
+            if not z3.is_int_value(e0):
+                return self.table_lookup(seq, e0)
         i = self.index_of(idx, len(seq))
         if isinstance(o, str):
             return o[i]
         r = seq[i]
         return Str([r]) if kind == "str" else r
+
+    def table_lookup(self, table, e):
+        """table[e] for a concrete integer table and a symbolic index: bounds check + balanced ite tree
+        (precomputed lookup tables are a common rewrite of per-byte branches)"""
+        n = len(table)
+        self.throw_if(mk_bool(z3.Or(e < -n, e >= n)), "IndexError", "index out of range")
+        pos = z3.If(e < 0, e + n, e)
+
+        def build(lo, hi):
+            if hi - lo == 1:
+                return z3.IntVal(table[lo])
+            if all(table[k] == table[lo] for k in range(lo, hi)):
+                return z3.IntVal(table[lo])
+            mid = (lo + hi) // 2
+            return z3.If(pos < mid, build(lo, mid), build(mid, hi))
+        w = max(int(x).bit_length() for x in table) if all(x >= 0 for x in table) else None
+        return mk_int(build(0, n), w)
 
     def setitem(self, o, idx, v):
         if isinstance(o, PDict):
@@ -1697,6 +1737,11 @@ class Engine:
         d = self.mk_dict()
         self._comp(e.generators, lambda: d.d.__setitem__(self.hashable(self.ev(e.key)), self.ev(e.value)))
         return d
+
+    def e_NamedExpr(self, e):
+        v = self.ev(e.value)
+        self.store_name(e.target.id, v)
+        return v
 
     def e_Starred(self, e):
         raise Unsupported("starred expression")
